@@ -93,9 +93,12 @@ func (g *gen) fragScenario(w *world) {
 		}
 		// delivery: clean or with hostile fragments in between
 		hostile := g.r.Intn(3) == 0
+		disrupted := false
 		for i, p := range pieces {
 			if hostile && g.r.Intn(4) == 0 {
-				g.injectHostileFragment(w, b, a, pieces, i, delivered)
+				if g.injectHostileFragment(w, b, a, pieces, i, delivered) {
+					disrupted = true
+				}
 			}
 			plain, ts, _, _ := w.recv(b, p)
 			if plain != nil {
@@ -105,6 +108,11 @@ func (g *gen) fragScenario(w *world) {
 				olog.viol("C14", "delivered-early", "a plaintext was delivered before the last piece arrived")
 			}
 			l.enqueue(b, ts)
+		}
+		if hostile && !disrupted && delivered[string(text)] != 1 {
+			// what was thrown in between were no pieces of any stream (unparsable, illegal numbering,
+			// another instance): the genuine pieces still arrived in order, all of them
+			olog.viol("C14", "stream-lost-to-rejected-fragment", fmt.Sprintf("OTRv%d: a text of %d bytes in %d pieces, all delivered in order with only rejected fragments in between, was delivered %d times", version, n, len(pieces), delivered[string(text)]))
 		}
 		if !hostile && delivered[string(text)] != 1 {
 			olog.viol("C14", "lossy-or-duplicated", fmt.Sprintf("text of %d bytes sent with fragment size %d (%d pieces) was delivered %d times", n, size, len(pieces), delivered[string(text)]))
@@ -127,6 +135,52 @@ func (g *gen) fragScenario(w *world) {
 		}
 		for len(l.qab) > 0 {
 			l.deliver(true)
+		}
+	}
+	// one stream with every kind of rejected fragment thrown in between its pieces (unparsable header,
+	// a header of the other version, too few parts, illegal numbering, another instance): they are
+	// pieces of no stream, the genuine pieces all arrive in order and the text is delivered once
+	if w.dead {
+		return
+	}
+	{
+		size := hdr + 20 + g.r.Intn(100)
+		a.c.SetFragmentSize(uint16(size))
+		w.g.out.emit(fmt.Sprintf("setfrag %s %d", a.id, size), "ok")
+		text := []byte(fmt.Sprintf("<interleaved-%d> %s", g.r.Intn(1000000), g.cleanText()))
+		pieces, err := w.send(a, text)
+		if err == nil && !w.dead && len(pieces) >= 2 {
+			ot, tt := otr3.VerifSnapshot(a.c).OurTag, otr3.VerifSnapshot(b.c).OurTag
+			junk := [][]byte{
+				[]byte("?OTR|zzzz,1,1,x,"),
+				[]byte("?OTR,00002,00001,abc,"),
+				[]byte(fmt.Sprintf("?OTR|%08x|%08x,00001,abc,", ot, tt)),
+				[]byte(fmt.Sprintf("?OTR|%08x|%08x,00000,00003,abc,", ot, tt)),
+				[]byte(fmt.Sprintf("?OTR|%08x|%08x,00005,00003,abc,", ot, tt)),
+				[]byte(fmt.Sprintf("?OTR|%08x|%08x,00001,00001,?OTRv23?,", ot+1, tt)),
+				[]byte("?OTR|nonsense"),
+				[]byte("?OTR,1,2"),
+			}
+			got := 0
+			for i, p := range pieces {
+				if i > 0 {
+					for k := 0; k < 2; k++ {
+						w.recv(b, junk[g.r.Intn(len(junk))])
+					}
+				}
+				plain, ts, _, _ := w.recv(b, p)
+				if plain != nil && bytes.Equal(plain, text) {
+					got++
+				}
+				l.enqueue(b, ts)
+			}
+			olog.ok("C14")
+			if got != 1 {
+				olog.viol("C14", "stream-lost-to-rejected-fragment", fmt.Sprintf("OTRv%d: a text of %d bytes in %d pieces, all delivered in order with only rejected fragments in between, was delivered %d times", version, len(text), len(pieces), got))
+			}
+			for len(l.qba) > 0 {
+				l.deliver(false)
+			}
 		}
 	}
 	// a fragmented message of a kind that is handled before the data path (an error message, as
@@ -202,7 +256,9 @@ func (g *gen) fragScenario(w *world) {
 	}
 }
 
-func (g *gen) injectHostileFragment(w *world, to, from *party, pieces []otr3.ValidMessage, i int, delivered map[string]int) {
+// reports whether what it injected legitimately disturbs a stream in progress (a piece of the stream
+// itself, out of turn)
+func (g *gen) injectHostileFragment(w *world, to, from *party, pieces []otr3.ValidMessage, i int, delivered map[string]int) (disruptive bool) {
 	var m []byte
 	ot, tt := otr3.VerifSnapshot(from.c).OurTag, otr3.VerifSnapshot(to.c).OurTag
 	switch g.r.Intn(7) {
@@ -217,6 +273,7 @@ func (g *gen) injectHostileFragment(w *world, to, from *party, pieces []otr3.Val
 	case 4: // duplicate of an earlier piece
 		if i > 0 {
 			m = append([]byte{}, pieces[g.r.Intn(i)]...)
+			disruptive = true
 		} else {
 			m = []byte("?OTR,00000,00000,,")
 		}
@@ -230,6 +287,7 @@ func (g *gen) injectHostileFragment(w *world, to, from *party, pieces []otr3.Val
 		delivered[string(plain)]++
 	}
 	_ = bytes.Equal
+	return disruptive
 }
 
 
